@@ -21,7 +21,8 @@ import LitexProofs.RoundRobin
   |   incl. Arbiter + Decoder as far as cyc/stb/adr/ack/   |   decoder + Timeout override)       | _coincidence, _recovers, wb_waited_scenario,                      | B up to 5×3, t∈{7,16,100,128,255,default 1e6} |
   |   err/dat_r go (we/dat_w/sel/cti/bte: C06)             |                                     | wb_silent_request_terminated_at_t, wb_unmapped_address,           | (`wbshared`) |
   |                                                        |                                     | wb_bounded_termination, wb_healthy_bus_transparent,               |     |
-  |                                                        |                                     | wb_grant_is_roundrobin, wb_every_master_served                    |     |
+  |                                                        |                                     | wb_grant_is_roundrobin, wb_every_master_served,                   |     |
+  |                                                        |                                     | wb_closed_liveness (+ _budget_le): (n-1)(t+2) cycle bound         |     |
   | wishbone.py: Crossbar(timeout_cycles)  [ignored]       | Wb.Crossbar                         | wb_crossbar_ignores_timeout, _silent_slave_hangs, _hangs_forever  | A, B (`wbxbar`); P C11-crossbar-timeout-ignored |
   | wishbone.py: InterconnectPointToPoint                  | — (no timeout exists; C06-p2p-*)    | —                                                                | recorded as note only |
   | axi_lite.py: AXILiteTimeout ; axi_full.py: AXITimeout  | Axi.wTimeout, Axi.rTimeout full     | axl_wr/rd_transparent, _timeout_exact, _forced, _recovers,        | A t∈{1,2,3}, dw∈{8,64,128}, both directions; B |
@@ -30,7 +31,9 @@ import LitexProofs.RoundRobin
   | axi_lite.py/axi_full.py: _AXI(Lite)RequestCounter      | Axi.ctrNext/ctrReady                | used in the composed theorems (lock = 0 again after forced resp.) | via `axshared` |
   | AXI(Lite)Arbiter, AXI(Lite)Decoder (control: valid/    | Axi.SharedW, Axi.SharedR            | axl_shared_wr/rd_exact, _undisturbed, axl_wr/rd_timeout_bound_    | A 1×1,2×1,1×2 (2×2 thorough), BFS to a transition |
   |   ready/addr/resp/data/last, lock counters, selects)   |                                     | partial, axl_unmapped_address, axl_response_phase_hangs,          | budget; B 2×2..3×2, t∈{7,16,100,128}, dw 32/64 |
-  | AXI(Lite)InterconnectShared(timeout_cycles=t/None)     |                                     | axl_shared_wr/rd_stall_bounded, axl_healthy_bus_transparent_wr/rd | (`axshared`) |
+  | AXI(Lite)InterconnectShared(timeout_cycles=t/None)     |                                     | axl_shared_wr/rd_stall_bounded, axl_healthy_bus_transparent_wr/rd,| (`axshared`) |
+  |                                                        |                                     | axl_wr/rd_grant_is_roundrobin, axl_wr/rd_every_master_served,     |     |
+  |                                                        |                                     | axl_wr_ce_when_idle                                               |     |
   | AXIArbiter/AXIDecoder pass-through payload: aw/ar id,  | Axi.payOut (Timeout/Soc.lean)       | axi_response_id_independent_of_request, axi_forced_response_id_   | A 1×1 (2×1, 1×2 thorough), B 2×2 with random ids/ |
   |   len, w.last, b/r id (NEW)                            |                                     | zero, _matches_partial (+ witness), axi_request_payload_routed    | len/last (`axsoc`) |
   |   burst, size, lock, prot, cache, qos, region, data,   | not modelled: routed by the same    | —                                                                | —   |
@@ -46,8 +49,8 @@ import LitexProofs.RoundRobin
   |   → do_finalize: interconnect_cls(..., timeout_cycles) |                                     |                                                                  | handler 1×1 at non-zero origin; CSR-only SoCMini; |
   |   (p2p when 1×1 at origin 0: no timeout)               |                                     |                                                                  | B `default` (argument omitted = 1e6) |
 
-  Open (not theorems): crossbars with a working timeout (finding); AXI response phase (finding); a closed cycle bound
-  for `wb_every_master_served` needs a master model (release of `cyc` after `ack`) — stated compositionally instead.
+  Open (not theorems): crossbars with a working timeout (finding); AXI response phase (finding), which is also why the
+  AXI liveness is stated per phase (stall bound, RESPOND termination, arbitration) and not as one closed cycle bound.
 -/
 /-
   C11 — A silent or absent slave cannot hang the bus.
@@ -1288,6 +1291,222 @@ theorem wb_every_master_served (c : Wb.Cfg) (i : Nat) (hi : i < c.n) (s : Wb.Sta
   omega
 
 end liveness
+
+/-! ## Arbitration liveness on the AXI / AXI-Lite shared interconnects
+
+  The grant of each direction is Migen's round-robin (SP_CE) on `valid`s; `ce` is asserted whenever nothing is
+  outstanding and the owner offers and sees nothing.  A waiting master is overtaken at most `n - 1` times. -/
+
+section liveness2
+open Axi
+
+/-- `(rr_write.request, rr_write.ce)` along a run of the write direction from `s`. -/
+def axWReqs (c : Axi.Cfg) : DState → List WBusIn → List ((Nat → Bool) × Bool)
+  | _, [] => []
+  | s, x :: xs => (SharedW.rrReq c s x, SharedW.ce c s x) :: axWReqs c (SharedW.next c s x) xs
+
+def axRReqs (c : Axi.Cfg) : DState → List RBusIn → List ((Nat → Bool) × Bool)
+  | _, [] => []
+  | s, x :: xs => (SharedR.rrReq c s x, SharedR.ce c s x) :: axRReqs c (SharedR.next c s x) xs
+
+theorem axl_wr_grant_is_roundrobin (c : Axi.Cfg) (xs : List WBusIn) : ∀ (s : DState),
+    ((SharedW.machine c).runFrom s xs).grant = RoundRobin.run .ce c.n s.grant (axWReqs c s xs) := by
+  induction xs with
+  | nil => intro s; rfl
+  | cons x xs ih => intro s; simp only [Machine.runFrom, axWReqs, RoundRobin.run]; rw [ih]; rfl
+
+theorem axl_rd_grant_is_roundrobin (c : Axi.Cfg) (xs : List RBusIn) : ∀ (s : DState),
+    ((SharedR.machine c).runFrom s xs).grant = RoundRobin.run .ce c.n s.grant (axRReqs c s xs) := by
+  induction xs with
+  | nil => intro s; rfl
+  | cons x xs ih => intro s; simp only [Machine.runFrom, axRReqs, RoundRobin.run]; rw [ih]; rfl
+
+theorem axl_wr_every_master_served (c : Axi.Cfg) (i : Nat) (hi : i < c.n) (xs : List WBusIn) (s : DState)
+    (hg : s.grant < c.n) (hreq : ∀ x ∈ xs, ((x.ms i).awv || (x.ms i).wv) = true)
+    (hw : RoundRobin.waiting .ce c.n i s.grant (axWReqs c s xs)) :
+    RoundRobin.ceStalls c.n i s.grant (axWReqs c s xs) +
+      RoundRobin.dist c.n ((SharedW.machine c).runFrom s xs).grant i ≤ RoundRobin.dist c.n s.grant i ∧
+    RoundRobin.dist c.n s.grant i ≤ c.n - 1 := by
+  rw [axl_wr_grant_is_roundrobin]
+  have hr : ∀ (xs : List WBusIn) (s : DState), (∀ x ∈ xs, ((x.ms i).awv || (x.ms i).wv) = true) →
+      ∀ rc ∈ axWReqs c s xs, rc.1 i = true := by
+    intro xs
+    induction xs with
+    | nil => intro s _ rc h; simp [axWReqs] at h
+    | cons x xs ih =>
+      intro s hq rc h
+      simp only [axWReqs, List.mem_cons] at h
+      rcases h with rfl | h
+      · have := hq x (by simp)
+        simp only [SharedW.rrReq]
+        simp only [Bool.or_eq_true] at this ⊢
+        exact Or.inl this
+      · exact ih _ (fun y hy => hq y (by simp [hy])) rc h
+  refine ⟨RoundRobin.rr_ce_stalls_bounded hi _ hg (hr xs s hreq) hw, ?_⟩
+  have := RoundRobin.dist_lt c.n s.grant i (by omega)
+  omega
+
+theorem axl_rd_every_master_served (c : Axi.Cfg) (i : Nat) (hi : i < c.n) (xs : List RBusIn) (s : DState)
+    (hg : s.grant < c.n) (hreq : ∀ x ∈ xs, (x.ms i).arv = true)
+    (hw : RoundRobin.waiting .ce c.n i s.grant (axRReqs c s xs)) :
+    RoundRobin.ceStalls c.n i s.grant (axRReqs c s xs) +
+      RoundRobin.dist c.n ((SharedR.machine c).runFrom s xs).grant i ≤ RoundRobin.dist c.n s.grant i ∧
+    RoundRobin.dist c.n s.grant i ≤ c.n - 1 := by
+  rw [axl_rd_grant_is_roundrobin]
+  have hr : ∀ (xs : List RBusIn) (s : DState), (∀ x ∈ xs, (x.ms i).arv = true) →
+      ∀ rc ∈ axRReqs c s xs, rc.1 i = true := by
+    intro xs
+    induction xs with
+    | nil => intro s _ rc h; simp [axRReqs] at h
+    | cons x xs ih =>
+      intro s hq rc h
+      simp only [axRReqs, List.mem_cons] at h
+      rcases h with rfl | h
+      · simp [SharedR.rrReq, hq x (by simp)]
+      · exact ih _ (fun y hy => hq y (by simp [hy])) rc h
+  refine ⟨RoundRobin.rr_ce_stalls_bounded hi _ hg (hr xs s hreq) hw, ?_⟩
+  have := RoundRobin.dist_lt c.n s.grant i (by omega)
+  omega
+
+/-- The hand-over condition: with nothing outstanding (`lock = 0`) and the owner offering nothing and seeing no
+    response, `ce = 1` — so after a (forced or genuine) response the very next idle cycle passes the grant on. -/
+theorem axl_wr_ce_when_idle (c : Axi.Cfg) (s : DState) (x : WBusIn) (hl : s.lock = 0)
+    (hidle : (x.ms s.grant).awv = false ∧ (x.ms s.grant).wv = false) (hb : (SharedW.tRes c s x).bv = false) :
+    SharedW.ce c s x = true := by
+  simp [SharedW.ce, SharedW.bus, hidle.1, hidle.2, hb, ctrReady, hl]
+
+/-- Non-vacuity: 2 masters, master 0 owns the write channels and keeps a write pending on a silent slave; master 1
+    requests and waits (hypotheses of `axl_wr_every_master_served` for `i = 1`). -/
+example :
+    let c : Axi.Cfg := { cfg11 with n := 2 }
+    let x : WBusIn := { ms := fun _ => { awv := true, wv := true }, ss := fun _ => {} }
+    RoundRobin.waiting .ce c.n 1 (dInit c).grant (axWReqs c (dInit c) [x, x, x]) ∧
+    RoundRobin.ceStalls c.n 1 (dInit c).grant (axWReqs c (dInit c) [x, x, x]) = 0 := by
+  simp only [RoundRobin.waiting, axWReqs]
+  decide
+
+end liveness2
+
+/-! ## Wishbone shared interconnect: closed liveness bound for every master
+
+  For EVERY slave behaviour (silent, late, absent, answering in or after the expiry cycle — the slaves' inputs are
+  unconstrained) and every number of masters/slaves: a master that keeps requesting owns the bus after at most
+  `(n - 1) * (t + 2)` cycles, provided the masters follow the elementary discipline `Disciplined` (release `cyc`
+  after the acknowledge; no `cyc` without `stb`).  Derived from `RoundRobin` (C06's arbiter lemmas), the timer
+  register and the forced acknowledge. -/
+
+section wbClosed
+open Wb Wb.Shared
+
+/-- Master discipline along a run from `s` (closed-loop: it refers to what the interconnect answered):
+    master `i` keeps `cyc`; an owner that was acknowledged in the previous cycle (`rel`) drops `cyc` now; an owner
+    that holds `cyc` also drives `stb` (it uses the bus it holds). -/
+def Disciplined (c : Wb.Cfg) (i : Nat) : Wb.State → Bool → List Wb.BusIn → Prop
+  | _, _, [] => True
+  | s, rel, x :: xs =>
+    (x.ms i).cyc = true ∧ (rel = true → (x.ms s.grant).cyc = false) ∧
+    ((x.ms s.grant).cyc = true → (x.ms s.grant).stb = true) ∧
+    Disciplined c i (Shared.next c s x) ((x.ms s.grant).cyc && ((Shared.out c s x).toM s.grant).ack) xs
+
+/-- Cycles master `i` still has to wait at most: `t + 2` per master ahead of it in the round-robin order, minus
+    the progress of the current owner's access. -/
+def budget (c : Wb.Cfg) (t i : Nat) (s : Wb.State) (rel : Bool) : Nat :=
+  RoundRobin.dist c.n s.grant i * (t + 2) - (if rel then t + 1 else t - s.count)
+
+theorem wb_closed_liveness (c : Wb.Cfg) {t : Nat} (ht : c.t = some t) (i : Nat) (hi : i < c.n)
+    (xs : List Wb.BusIn) : ∀ (s : Wb.State) (rel : Bool), s.grant < c.n → s.count ≤ t →
+    Disciplined c i s rel xs → budget c t i s rel ≤ xs.length →
+    ∃ k, k ≤ budget c t i s rel ∧ ((Shared.machine c).runFrom s (xs.take k)).grant = i := by
+  induction xs with
+  | nil =>
+    intro s rel hg hc _ hb
+    by_cases hgi : s.grant = i
+    · exact ⟨0, Nat.zero_le _, by simpa [Machine.runFrom] using hgi⟩
+    · exfalso
+      have hd : RoundRobin.dist c.n s.grant i ≠ 0 := fun h => hgi (RoundRobin.dist_eq_zero hg hi h)
+      have : 1 ≤ RoundRobin.dist c.n s.grant i := by omega
+      have h2 : (t + 2) ≤ RoundRobin.dist c.n s.grant i * (t + 2) := Nat.le_mul_of_pos_left _ this
+      simp only [budget, List.length_nil] at hb
+      cases rel <;> simp at hb <;> omega
+  | cons x xs ih =>
+    intro s rel hg hc hdis hb
+    by_cases hgi : s.grant = i
+    · exact ⟨0, Nat.zero_le _, by simpa [Machine.runFrom] using hgi⟩
+    obtain ⟨hreq, hrel, hstb, hrest⟩ := hdis
+    have hne : i ≠ s.grant := fun h => hgi h.symm
+    -- facts about the step
+    have hg' : (Shared.next c s x).grant < c.n :=
+      (RoundRobin.next_lt .withdraw (fun m => (x.ms m).cyc) true hg :)
+    have hcnt : (Shared.next c s x).count = tNext t c.dw s.count (tIn c s x) := next_count c ht s x
+    have hack : ((Shared.out c s x).toM s.grant).ack = (tOut c.dw s.count (tIn c s x)).ack := by
+      simp [Shared.out, tRes_some c ht]
+    have hc' : (Shared.next c s x).count ≤ t := by
+      rw [hcnt]; simp only [tNext, WaitTimer.next]; split <;> (try split) <;> omega
+    -- the budget decreases by at least one
+    have hdec : budget c t i (Shared.next c s x)
+        ((x.ms s.grant).cyc && ((Shared.out c s x).toM s.grant).ack) + 1 ≤ budget c t i s rel := by
+      have hd0 : RoundRobin.dist c.n s.grant i ≠ 0 := fun h => hgi (RoundRobin.dist_eq_zero hg hi h)
+      cases hcyc : (x.ms s.grant).cyc
+      · -- hand-over
+        have hmv := (RoundRobin.next_ne_self_of_other_req .withdraw (fun m => (x.ms m).cyc) true hg hi hne hreq
+          (by simp [RoundRobin.enabled, hcyc])).2
+        have hgn : (Shared.next c s x).grant = RoundRobin.next .withdraw c.n s.grant (fun m => (x.ms m).cyc) true := rfl
+        rw [← hgn] at hmv
+        have hmul : RoundRobin.dist c.n (Shared.next c s x).grant i * (t + 2) + (t + 2) ≤
+            RoundRobin.dist c.n s.grant i * (t + 2) := by
+          have : RoundRobin.dist c.n (Shared.next c s x).grant i + 1 ≤ RoundRobin.dist c.n s.grant i := hmv
+          calc _ = (RoundRobin.dist c.n (Shared.next c s x).grant i + 1) * (t + 2) := by rw [Nat.add_mul]; simp
+               _ ≤ _ := Nat.mul_le_mul_right _ this
+        simp only [budget, Bool.false_and, Bool.false_eq_true, if_false]
+        cases rel <;> simp <;> omega
+      · have hrf : rel = false := by cases rel <;> simp_all
+        have hs := hstb hcyc
+        have hkeep : (Shared.next c s x).grant = s.grant :=
+          RoundRobin.next_withdraw_keep (fun m => (x.ms m).cyc) true hg hcyc
+        subst hrf
+        simp only [budget, hkeep, Bool.true_and, Bool.false_eq_true, if_false]
+        have hd1 : 1 ≤ RoundRobin.dist c.n s.grant i := by omega
+        have h2 : (t + 2) ≤ RoundRobin.dist c.n s.grant i * (t + 2) := Nat.le_mul_of_pos_left _ hd1
+        cases ha : ((Shared.out c s x).toM s.grant).ack
+        · -- still waiting: the timer counts down
+          rw [hack] at ha
+          have hnd : WaitTimer.done s.count = false := by
+            cases hd : WaitTimer.done s.count
+            · rfl
+            · simp [tOut, hd] at ha
+          have hw : tWait c.dw s.count (tIn c s x) = true := by
+            unfold tWait; rw [ha]; simp [tIn, bus, hcyc, hs]
+          have hpos : s.count ≠ 0 := by simpa [WaitTimer.done] using hnd
+          rw [hcnt]
+          simp only [tNext, WaitTimer.next, hw, hnd, if_true, Bool.false_eq_true, if_false]
+          omega
+        · simp only [if_true]; omega
+    obtain ⟨k, hk, hrun⟩ := ih _ _ hg' hc' hrest (by simp only [List.length_cons] at hb; omega)
+    exact ⟨k + 1, by omega, by rw [List.take_succ_cons]; exact hrun⟩
+
+/-- The budget never exceeds `(n - 1) * (t + 2)`. -/
+theorem wb_closed_liveness_budget_le (c : Wb.Cfg) (t i : Nat) (s : Wb.State) (rel : Bool) (hn : 0 < c.n) :
+    budget c t i s rel ≤ (c.n - 1) * (t + 2) := by
+  have hd := RoundRobin.dist_lt c.n s.grant i hn
+  have : RoundRobin.dist c.n s.grant i * (t + 2) ≤ (c.n - 1) * (t + 2) := Nat.mul_le_mul_right _ (by omega)
+  simp only [budget]; omega
+
+/-- Non-vacuity (`cfgWb`: 2 masters, `t = 3`): master 0 owns the bus with a request to the silent slave 1, master 1
+    requests too.  Master 0 is terminated in cycle 3, releases `cyc` in cycle 4, master 1 owns the bus from cycle 5
+    on — exactly the budget `1 * (3 + 2)`. -/
+example :
+    let both : Wb.BusIn := { ms := fun m => if m = 0 then { cyc := true, stb := true, adr := 2 }
+                                            else { cyc := true, stb := true, adr := 0 }, ss := fun _ => {} }
+    let only1 : Wb.BusIn := { ms := fun m => if m = 0 then {} else { cyc := true, stb := true, adr := 0 },
+                              ss := fun _ => {} }
+    Disciplined cfgWb 1 (Shared.init cfgWb) false [both, both, both, both, only1, only1] ∧
+    budget cfgWb 3 1 (Shared.init cfgWb) false = 5 ∧
+    ((Shared.machine cfgWb).run [both, both, both, both]).grant = 0 ∧
+    ((Shared.machine cfgWb).run [both, both, both, both, only1]).grant = 1 := by
+  simp only [Disciplined]
+  decide
+
+end wbClosed
 
 /-! ## Wishbone `Crossbar`: `timeout_cycles` is ignored (known finding C11-crossbar-timeout-ignored) -/
 
